@@ -16,12 +16,14 @@ import vlib, valueslib as vl
 from vlib import Inconclusive, log
 
 CHECKS = ["C04_NoPanic", "C04_Refusal", "C04_SetPath", "C04_UserPrecedence", "C04_CoalesceRefusal",
-          "C04_RootPrecedence", "C04_ScopePrecedence", "C04_NullRemovesKey", "C04_InputsUnmodified"]
+          "C04_RootPrecedence", "C04_ScopePrecedence", "C04_NullRemovesKey", "C04_CommandLine", "C04_InputsUnmodified"]
 
 # family -> (constants, replay cap) per tier; cap None = replay every enumerated case
 PLAN = {
     "quick": [
         ("pair",  dict(Full=False, SetPairs=False), None),
+        ("cli",   dict(Full=False, SetPairs=False), None),
+        ("mdoc",  dict(Full=False, SetPairs=False), None),
         ("deep",  dict(Full=False, SetPairs=False), None),
         ("sub2",  dict(Full=False, SetPairs=False), None),
         ("deepsub", dict(Full=False, SetPairs=False), None),
@@ -31,6 +33,8 @@ PLAN = {
     ],
     "thorough": [
         ("pair",  dict(Full=True, SetPairs=False), None),
+        ("cli",   dict(Full=True, SetPairs=False), None),
+        ("mdoc",  dict(Full=True, SetPairs=False), None),
         ("deep",  dict(Full=True, SetPairs=False), None),
         ("sub2",  dict(Full=True, SetPairs=False), None),
         ("deepsub", dict(Full=True, SetPairs=False), None),
@@ -45,7 +49,7 @@ SIMS = {
               ("set", dict(Full=True, SetPairs=True), 1000)],
     "thorough": [("flags", dict(Full=True, SetPairs=True), 6000), ("set", dict(Full=True, SetPairs=True), 6000)],
 }
-NSTAGES = {"pair": 2, "deep": 2, "deepsub": 3, "sub2": 3, "sub3": 4, "flags": 8, "set": 2}
+NSTAGES = {"cli": 6, "mdoc": 4, "pair": 2, "deep": 2, "deepsub": 3, "sub2": 3, "sub3": 4, "flags": 8, "set": 2}
 
 # ---------------------------------------------------------------------------------------
 # known findings: recognised by the specific input
@@ -66,10 +70,13 @@ def known_for(case, check):
 
 
 def describe(c):
-    ch = " > ".join("%s=%s" % (x["name"], vl.show(x["vals"])) for x in c["charts"])
+    def cv(x):
+        return " --- ".join(vl.show(d) for d in x["docs"]) if x.get("docs") else vl.show(x["vals"])
+    ch = " > ".join("%s=%s" % (x["name"], cv(x)) for x in c["charts"])
     fl = " ".join("--%s '%s'" % ({"json": "set-json", "set": "set", "str": "set-string", "file": "set-file", "lit": "set-literal"}[k], e)
                   for k in ("json", "set", "str", "file", "lit") for e in c["flags"].get(k, []))
-    return "charts[%s] files[%s] %s" % (ch, ", ".join(vl.show(f) for f in c["files"]), fl)
+    return "charts[%s] files[%s] %s" % (ch, ", ".join(" --- ".join(vl.show(d) for d in c["filedocs"][i]) if i < len(c.get("filedocs") or []) and c["filedocs"][i] else vl.show(f)
+                                                        for i, f in enumerate(c["files"])), fl)
 
 
 BATCH = 40000     # observations per TLC monitor run (memory of ndJsonDeserialize)
